@@ -2,6 +2,7 @@ package harness
 
 import (
 	"context"
+	"errors"
 	"fmt"
 	"time"
 
@@ -29,6 +30,9 @@ type PlanC04 struct {
 	Back     FaultSpec    `json:"back"`
 	// LatePC: 1 = the client, 2 = the server first gives up on a command request of its own (50 ms
 	// context); the late response to it then travels like any other envelope and is owed a delivery.
+	// 3 / 4: the same callers, but the answer is sent at the very instant their context expires: it
+	// may be taken by the call, surfaced on the response stream or (having met the call as it gave
+	// up) dropped, so it is owed no delivery - everything sent after it still is.
 	LatePC int `json:"late_pc,omitempty"`
 }
 
@@ -77,7 +81,7 @@ func genC04(t *simrt.Tape, tier string) interface{} {
 		p.CliDelay = append(p.CliDelay, []int{0, 1, 30, 700, 6000}[t.Draw(5)])
 	}
 	p.CliMux = t.Draw(2) == 0
-	p.LatePC = []int{0, 0, 0, 0, 1, 2}[t.Draw(6)]
+	p.LatePC = []int{0, 0, 0, 0, 1, 2, 3, 4}[t.Draw(8)]
 	if p.Conf.Listeners[0] != "inproc" && t.Draw(2) == 0 {
 		p.Faults = benignFaults(t, 2000)
 		p.Back = benignFaults(t, 2000)
@@ -402,13 +406,35 @@ func runC04(w *World, pi interface{}) {
 	}
 	var lateRec, lateReq *sentRec
 	lateDir, lateID := "", ""
-	if p.LatePC == 1 || p.LatePC == 2 {
+	var atDeadline *sentRec
+	atDeadlineDir := ""
+	atDeadlineDone := NewFlag()
+	if p.LatePC >= 1 && p.LatePC <= 4 {
 		req := &lime.RequestCommand{}
 		req.Method = lime.CommandMethodGet
 		req.SetURIString("/late")
+		if p.LatePC >= 3 {
+			// the answer leaves at the instant the caller's context expires
+			id := map[int]string{3: "c2s.9.0", 4: "s2c.9.0"}[p.LatePC]
+			var snd lime.Sender = sch
+			atDeadlineDir = "s2c"
+			if p.LatePC == 4 {
+				snd = ch
+				atDeadlineDir = "c2s"
+			}
+			go func() {
+				defer atDeadlineDone.Set()
+				time.Sleep(50 * time.Millisecond)
+				e := BuildEnvelope(EnvSpec{Kind: KResponse, Seed: 78, Size: 10}, id)
+				lctx, lcancel := context.WithTimeout(context.Background(), 20*time.Minute)
+				_ = sendVia(lctx, snd, e)
+				lcancel()
+				atDeadline = &sentRec{e, errors.New("owed no delivery: sent at the instant its caller gave up")}
+			}()
+		}
 		pctx, pcancel := context.WithTimeout(context.Background(), 50*time.Millisecond)
 		var perr error
-		if p.LatePC == 1 {
+		if p.LatePC == 1 || p.LatePC == 3 {
 			req.ID = "c2s.9.0" // the request goes to the server, the answer will come from it
 			w.Bounded("the abandoned ProcessCommand", time.Minute, func() { _, perr = ch.ProcessCommand(pctx, req) })
 		} else {
@@ -416,7 +442,14 @@ func runC04(w *World, pi interface{}) {
 			w.Bounded("the abandoned ProcessCommand", time.Minute, func() { _, perr = sch.ProcessCommand(pctx, req) })
 		}
 		pcancel()
-		if perr != nil {
+		if p.LatePC >= 3 {
+			atDeadlineDone.WaitFor(30 * time.Minute)
+			w.Count("command-answered-at-its-deadline")
+			// (the request itself is owed a delivery only if its send succeeded, which the caller cannot tell)
+			dirOfReq := map[int]string{3: "c2s", 4: "s2c"}[p.LatePC]
+			_ = dirOfReq
+			lateReq = &sentRec{&Env{ID: req.ID, Kind: KRequest, Req: req, Canon: canonJSON(req)}, errors.New("abandoned or answered")}
+		} else if perr != nil {
 			w.Count("abandoned-command-before-the-traffic")
 			lateDir = map[int]string{1: "s2c", 2: "c2s"}[p.LatePC]
 			lateID = req.ID
@@ -440,6 +473,15 @@ func runC04(w *World, pi interface{}) {
 	}
 	for _, fl := range append(c2sDone, s2cDone...) {
 		fl.WaitFor(60 * time.Minute)
+	}
+	if atDeadline != nil {
+		if atDeadlineDir == "c2s" {
+			c2sRecs = append(c2sRecs, []sentRec{*atDeadline})
+			s2cRecs = append(s2cRecs, []sentRec{*lateReq})
+		} else {
+			s2cRecs = append(s2cRecs, []sentRec{*atDeadline})
+			c2sRecs = append(c2sRecs, []sentRec{*lateReq})
+		}
 	}
 	if lateRec != nil {
 		// (only now: the sender tasks append to the elements of the record slices until they are done)
